@@ -249,7 +249,7 @@ class Association(threading.Thread):
 
         # Ensure socket is shutdown and closed
         try:
-            cast(AssociationSocket, self.dul.socket)._shutdown_socket()
+            cast("AssociationSocket", self.dul.socket)._shutdown_socket()
         except Exception:
             pass
 
